@@ -194,6 +194,41 @@ func c02Run(text string, gs []*targetgroup.Group) (ref, got []pipe.One, gen []by
 	return ref, got, gen, refFailures, err
 }
 
+// c02RunHistory: the shard first ran the same job WITHOUT its params (and got its targets then); the
+// configuration is then reloaded to the real job. The coordinator pushes a new assignment only when the
+// set of target hashes changed (shard.needUpdate) - otherwise the sidecar keeps what it has.
+func c02RunHistory(j c02Job, gs []*targetgroup.Group) (ref, got []pipe.One, gen []byte, err error) {
+	old := j
+	old.params = 0
+	infoOld, err := pipe.LoadInfo(old.text())
+	if err != nil {
+		return nil, nil, nil, fmt.Errorf("config rejected: %v", err)
+	}
+	info, err := pipe.LoadInfo(j.text())
+	if err != nil {
+		return nil, nil, nil, fmt.Errorf("config rejected: %v", err)
+	}
+	ref, _ = pipe.Reference(info.Config.ScrapeConfigs[0], gs)
+	a0, _ := pipe.Discovered(infoOld, []map[string][]*targetgroup.Group{{"j1": gs}})
+	a1, _ := pipe.Discovered(info, []map[string][]*targetgroup.Group{{"j1": gs}})
+	same := len(a0) == len(a1)
+	for h := range a0 {
+		if _, ok := a1[h]; !ok {
+			same = false
+		}
+	}
+	steps := []pipe.Step{{Info: infoOld, Assigned: pipe.Ship(a0)}, {Info: info}}
+	if !same {
+		steps = append(steps, pipe.Step{Assigned: pipe.Ship(a1)})
+	}
+	gen, err = pipe.InjectHistory(steps, sidecar.InjectConfigOptions{ProxyURL: "http://127.0.0.1:8008"})
+	if err != nil {
+		return ref, nil, nil, fmt.Errorf("inject: %v", err)
+	}
+	got, err = pipe.Sharded(info, "j1", gen)
+	return ref, got, gen, err
+}
+
 func c02Diff(ref, got []pipe.One) (string, string) {
 	rm, gm := map[string]int{}, map[string]int{}
 	for _, o := range ref {
@@ -275,6 +310,17 @@ func init() {
 					continue
 				}
 				kind, detail := c02Diff(ref, got)
+				if kind == "" && j.params > 0 && !strings.Contains(g.name, "invalid-char") {
+					// the same pipeline after a configuration reload that added the job's params
+					href, hgot, hgen, herr := c02RunHistory(j, g.groups)
+					r.Transitions++
+					if herr != nil {
+						r.Violate("C02:pipeline-error:after-reload", "pipeline", fmt.Sprintf("%s / %s after reload: %v", j.name(), g.name, herr), idx, rp("pipeline", herr.Error()))
+					} else if hk, hd := c02Diff(href, hgot); hk != "" {
+						ref, got, gen = href, hgot, hgen
+						r.Violate("C02:"+hk+":after-reload-adding-params", "equivalence", fmt.Sprintf("%s / %s, after a reload that added the job's params: %s", j.name(), g.name, hd), idx, rp("equivalence", hd))
+					}
+				}
 				if kind == "" {
 					continue
 				}
